@@ -96,6 +96,11 @@ CLAIMED = {
         note="Trusted: Lean kernel; hand model tied by log replay; scripted FakeSock + substituted selector/threading/queue/time; message bytes abstracted to (number, length) in the driver; runs cut short by the scheduler budget are counted as inconclusive; SCTP variants and real sockets are not exercised; BlockingIOError on send marks the transport stopped (C08).",
         technique="Lean 4 proof (conservation invariant over all action sequences) + scheduler-driven differential correspondence on the real threads",
         design="4 C05"),
+    "C04": dict(
+        text="Lean: framing theorem — for every sequence of well-formed messages and EVERY prefix of their concatenated encoding (wherever the network or the reader cut it, including inside headers), the split of the receive worker yields exactly the messages complete in that prefix, in order, and keeps the bytes of the partial one; model of the inbound pipeline (network chunks of any size, transport buffer, reassembly carry, receive queue, state-machine tick, delivery queue, consumer) and theorems for EVERY segmentation and EVERY interleaving of the four actors: what the application has received is an initial segment of the application messages sent and what the state machine has consumed an initial segment of the base messages sent (each once, complete, in order); when the network has delivered everything one more worker iteration leaves no byte behind and every message has been parsed; with the queues emptied the application has exactly the application messages sent. Tie: the real client node under the simulation scheduler with scripted segmentations (one byte at a time, around header size, mixed, several messages per read), received messages compared byte for byte, buffer operations replayed on the model; the state-machine/consumer hand-off additionally enumerated depth-first over all schedules for 1..3 messages.",
+        note="Trusted: Lean kernel; hand model tied by log replay; scripted FakeSock and substituted selector/threading/queue/time; a message is a byte string in the model (decode of a complete message: C02); garbage with a length field below 20 is handed to the parser and discarded with the batch (C03); a length field larger than what ever arrives waits for ever (inherent to the framing).",
+        technique="Lean 4 proof (framing lemma by induction on the message list; pipeline invariant over all action sequences) + scheduler-driven differential correspondence on the real threads",
+        design="4 C04"),
 }
 
 NOT_YET = {
